@@ -15,6 +15,12 @@ def setup(rng, state, mode="tun-router"):
     returns (scenario, src address that is in that state, index hints)"""
     s = nu.Scenario()
     cl = lambda i: ["%s/24" % bytes([10, 0, i, 0]).hex()]
+    if state == "established_plain":
+        # an UNENCRYPTED connection (both ends allow only "plain"): nothing is sealed, every byte string is taken at face value
+        s.node(1, mode=mode, claims=cl(1), algos="p|-").node(2, mode=mode, claims=cl(2), algos="p|-")
+        s.add("C.2.1", "A")
+        s.tick(1)
+        return s
     s.node(1, mode=mode, claims=cl(1)).node(2, mode=mode, claims=cl(2))
     if state == "unknown":
         s.node(3, mode=mode, claims=cl(3))
@@ -85,6 +91,18 @@ class C08(Property):
         thorough = tier == "thorough"
         out = []
         firsts = [0xff, 0, 1, 2, 3, 4, 0x10, 0x7f, 0x80, 0xfe, 5, 255, 16]
+        # an UNENCRYPTED connection takes every byte string at face value, so "leaves no state behind" does not apply - but the node must
+        # keep running: every length 0..40 (the empty datagram first) with structured first bytes, from the peer's address and others
+        for chunk in range(0, 41, 8):
+            s = setup(rng, "established_plain")
+            for n in range(chunk, min(41, chunk + 8)):
+                for fb in firsts:
+                    d = bytearray(rb(rng, n))
+                    if n:
+                        d[0] = fb
+                    s.add("W.1.%d.%s" % (rng.choice([2, 2, OUTSIDER]), bytes(d).hex() or "-"))
+            s.add("O.1", "S.1")
+            out.append(s.line())
         for state in STATES:
             for mode in (["tun-router", "tap-switch"] if thorough else ["tun-router"]):
                 # (a) lengths 0..80 with structured first bytes
@@ -178,8 +196,19 @@ class C08(Property):
     def model_line(self, line, impl_out):
         return nu.model_line(line, impl_out)
 
+    @staticmethod
+    def _plain(line):
+        return " N.1." in " " + line and ".p|-" in line.split()[1]
+
     def canon_impl(self, line, out):
+        if self._plain(line):
+            # arbitrary bytes on an unencrypted connection: the model does not follow the real decoders there (Node.v / PeerCrypto.v say
+            # so); what is compared and checked on these lines is only that the node keeps running
+            return "panic" if any(t.startswith("panic") for t in out.split()) else "alive"
         return nu.canon_impl(out)
+
+    def canon_model(self, line, out):
+        return "alive" if self._plain(line) else out
 
     def nontrivial(self, line, impl_out):
         return sum(1 for t in line.split() if t[0] in "WFUJ") >= 10
@@ -195,6 +224,8 @@ class C08(Property):
         return "inject:%s:%s" % (kinds, st)
 
     def oracle(self, line, impl_out):
+        if self._plain(line):
+            return "the node panicked on a datagram received over an unencrypted connection" if impl_out == "panic" else None
         ops = line.split()[1:]
         outs = impl_out.split()
         if len(ops) != len(outs):
